@@ -49,7 +49,7 @@ def check(an, rep, tier):
         'index and store of get, get_many, get_and_grad, interface, mean, '
         'sum, norm, full, add, sub, mul, mul_scalar, outer, accuracy, '
         'add_many, outer_many, accuracy_on_data, erank, ranks, shape, size is '
-        'dimension consistent for d = 2,3(,4) and symbolic unequal ranks / '
+        'dimension consistent for d = 2,3(,4,5) and symbolic unequal ranks / '
         'mode sizes, for tensor and number operands; S-ret add / sub / mul / '
         'outer / add_many / outer_many / copy return well-formed tensors with '
         'ranks a+b / a*b / a and the input mode sizes; S-dense full returns '
@@ -62,7 +62,7 @@ def check(an, rep, tier):
         'numba); the check_phi service branch.')
     rep.assumptions = pre('PRE-TT', 'PRE-D', 'PRE-IDX', 'PRE-NUM', 'PRE-DOC')
     rep.trusted = ['NumPy model']
-    ds = (2, 3) if tier == 'quick' else (2, 3, 4)
+    ds = (2, 3) if tier == 'quick' else (2, 3, 4, 5)
     runs = sweep(an, rep, ENTRIES, ds, rules=S_RULES + ['S-squeeze'],
                  wheres=WHERES)
     for r in runs:
